@@ -193,6 +193,8 @@ def run(rng, res, tier, shard, nshards):
     budget = Budget(CASES[tier] // nshards + 1, SECONDS[tier])
     while budget.more():
         cfg = Cfg(transitive_nonfield=0.3, max_depth=rng.choice([2, 3, 4]))
+        if rng.random() < 0.2:
+            cfg.same_sig_dups, cfg.dup_assoc_names = 0.6, 0.5      # associations that differ in their fields only
         spec = hostile_spec(rng, gen_language(rng, cfg), res)
         kind = rng.choice(KINDS)
         case = {'spec': spec, 'kind': kind, 'layout_seed': rng.randrange(10 ** 9), 'via_graph': rng.random() < 0.15}
